@@ -90,3 +90,30 @@ package function
 //@   loop 3 invariant done-index-own-series3: batchOK(vectors, 0, batchIndex, len(o.series))
 //@   loop 3 invariant this-vector-as-delivered: vecOK(vector, o.nextOps[o.vectorIndex].nSeries)
 //@   loop 3 invariant[C06] kept-counts-the-samples-with-a-value: 0 <= kept && kept <= rangeindex + 1 && kept == nvalid - atloop(nvalid)
+
+// ---- functions.go: extrapolatedRate (C01, C03) ----------------------------------------------------
+// The value of rate/increase/delta is the reference engine's (promql/functions.go extrapolatedRate,
+// v0.40.1), operation by operation: float arithmetic is uninterpreted, so the obligation is that the
+// same operations are applied to the same operands in the same order.
+//  - raw increase: last - first, plus, for a counter, the value before every reset (a sample lower
+//    than its predecessor; the first sample is compared with 0, which adds nothing);
+//  - extrapolation to the window boundaries, limited to 110% of the average sample distance and, for
+//    a counter that went up from a non-negative first sample, to the counter's zero point;
+//  - rate: divided by the range in seconds.
+//@ const erPrev = ite(rangeindex == 0, 0.0, samples[rangeindex-1].V)
+//@ const erSI = float64(samples[len(samples)-1].T - samples[0].T) / 1000.0
+//@ const erAvg = erSI / float64(len(samples)-1)
+//@ const erStart0 = float64(samples[0].T - (stepTime - (selectRange + offset))) / 1000.0
+//@ const erEnd = float64((stepTime - offset) - samples[len(samples)-1].T) / 1000.0
+//@ const erZero = erSI * (samples[0].V / acc)
+//@ const erStart = ite(isCounter && acc > 0.0 && samples[0].V >= 0.0 && erZero < erStart0, erZero, erStart0)
+//@ const erThr = erAvg * 1.1
+//@ const erTo = (erSI + ite(erStart < erThr, erStart, erAvg / 2.0)) + ite(erEnd < erThr, erEnd, erAvg / 2.0)
+//@ const erFactor = ite(isRate, (erTo / erSI) / (float64(selectRange) / 1000.0), erTo / erSI)
+//@ func extrapolatedRate
+//@   requires at-least-two-samples: len(samples) >= 2
+//@   assigns nothing
+//@   ghostvar acc float = samples[len(samples)-1].V - samples[0].V
+//@   at line "if sample.V < lastValue {" set acc = ite(samples[rangeindex].V < erPrev, acc + erPrev, acc)
+//@   ensures[C01,C03] value-is-the-reference-formula: result == acc * erFactor
+//@   loop 0 invariant[C01,C03] raw-increase-with-resets-so-far: resultValue == acc && lastValue == ite(rangeindex + 1 == 0, 0.0, samples[rangeindex].V)
